@@ -219,6 +219,8 @@ class Grid2D(GridObject):
             for child in copy.children:
                 if isinstance(getattr(child, "values", None), np.ndarray):
                     indices = child.mask_by_extent(extent, inverse=inverse)
+                    if indices is None:
+                        continue  # not cell data: nothing to blank
                     values = child.values
                     values[~indices] = child.nan_value
                     child.values = values
